@@ -1,19 +1,6 @@
-HOOK_COMMITS = []
+"""Manifest texts live next to the per-property configuration (bin/props.d/<id>.json)."""
+from props import TEXTS  # noqa: F401
+
+# commits in /repo that add verification hooks (build tag verif, add-only)
+HOOK_COMMITS = ["695f40a", "5cb0ad0", "4dffa46", "41224e4", "bb046e1"]
 NOT_APPLICABLE = {}
-TEXTS = {
- "C15": {
-  "technique": "Lean 4 theorems over operator cells regenerated from numeric.go/objects.go by a Go-to-Lean translator; hand model of array/map recursion tied by exhaustive pool^2 x operators correspondence",
-  "level": "Machine-checked proof: equal_comm (symmetry of == on all nested well-formed values), neq_not_eq, binop_no_panic (no operator application reaches a Go panic), trichotomy, le_iff_lt_or_eq, lt_flip are Lean theorems quantified over all values and all float arithmetic instances, stated about definitions that goextract regenerates from the Go source on every run; a source edit changes the Lean term and the proof is re-checked.",
-  "note": "Trusted: Lean kernel; goextract translator (fail-closed subset); hand model Model/Ops.lean for Array/Map recursion and left-operand dispatch, tied by the `ops` stream (pool^2 x 15 operators exhaustive + random nested values, model vs Object.BinaryOp/Equal and vs the VM); float arithmetic abstract (FloatOps), IEEE comparison defined on bit patterns. SyncMap/RuntimeError/user types outside the modelled value set.",
- },
- "C07": {
-  "technique": "Lean 4 theorems over a hand model of vm.go (Run prologue, 44 opcodes, recover wrapper, Clear, SetBytecode) tied by lock-step trace correspondence and by replaying whole run histories on one model state; structural store table regenerated from the Go source by goextract and checked by `decide`; direct oracle: histories of up to 8 runs (return/error/recovered panic/overflow/abort) on one real VM vs a new VM, Bytecode dump + encoder image before/after",
-  "level": "Machine-checked proof (partial at one named point): for ANY prior VM state (the history is quantified as 'any state'), Clear/SetBytecode followed by Run's prologue is liveEq to the prologue on a new VM (prologue_live, full); if one instruction and handlePanic preserve the liveness relation, Run returns the same outcome for every fuel (lifting_run, full; run_history_independent_*_partial and rerun_same_partial carry the hypotheses StepLive/PanicLive, which are not yet proved opcode by opcode; C07_full is the visible full statement); no model action assigns codes/consts/mainFn/numModules (bytecode_immutable, full); no store rooted at shared Bytecode data exists in vm.go/objects.go/modules.go/bytecode.go/source_file.go outside SetBytecode/NewVM/_acquire/_release/AddFile/AddLine (decide over the regenerated table).",
-  "note": "Trusted: Lean kernel; hand model VM/*.lean (tie: vmtrace + history streams); goextract store extraction is syntactic. Three fix commits on fix-c07: stale free variables of frame 0 (initCurrentFrame), frameIndex left one past the current frame after a caught StackOverflowError (xOpCallCompiled), LastFile race (C08). SetBytecode-only with hand-made bytecode reading slots >= sp is outside the claim. Function-cell immutability in the heap is covered structurally/dynamically, not by a theorem.",
- },
- "C08": {
-  "technique": "Lean 4 interleaving model (N VM states over one shared region) whose theorems are corollaries of C07's bytecode_immutable; regenerated store table incl. parser/source_file.go checked by `decide`; direct oracle: 8 goroutines x one Bytecode over six program families vs solo runs, builtin-module privacy probe, and the same workload in a child process built with `go build -race`",
-  "level": "Machine-checked proof for the model (partial for heap objects referenced by constants): no instruction writes the shared region (no_shared_write), under every schedule all VMs keep the one Bytecode (shared_stays_shared), steps of different VMs commute and each VM reaches exactly its solo state (independent), no conflicting access to the shared region (race_free_partial); no store to file-set fields remains in the lookup functions (fileset_lookups_pure, regenerated). The Go memory model, sync.Pool and the race detector are trusted.",
-  "note": "fix-c07 acf8fcc removes the unsynchronised LastFile write (DATA RACE reproduced with go run -race on the unchanged tree). Partial: sharing of heap objects behind constants and Copy() freshness are not theorems (model keeps a heap per VM; STOREMODULE container copy unsupported) - covered by the privacy probe, the store table and the race detector.",
- },
-}
